@@ -16,7 +16,7 @@ ANCHORS = [("deap/gp.py", ["PrimitiveTree.__setitem__", "PrimitiveTree.height", 
                            "staticLimit"])]
 LEVEL = "proof"
 RULE = ("primitive sets: 4 loose, 8 strongly typed (subclass pairs, object-rooted, terminals-only type, strict-subclass "
-        "returning primitive) and 6 with the int/bool/float vocabulary registered in shuffled order; "
+        "returning primitive, two distinct homonymous types) and 6 with the int/bool/float vocabulary registered in shuffled order; "
         "exhaustive part: every primitive set x generator (full, grow, half-and-half) x every min <= max in 0..6 x every "
         "requestable type (sizes capped); then every operator (cxOnePoint, cxOnePointLeafBiased, mutUniform with the three "
         "replacement generators, mutNodeReplacement, mutEphemeral one/all, mutInsert, mutShrink), bare and wrapped by "
@@ -309,6 +309,30 @@ def build_typedobj():
     return ps
 
 
+# two DISTINCT, incompatible types with the same __name__ / __qualname__ / __module__ (a class defined twice, dynamically
+# created classes, bool vs numpy.bool_ ...): types are identified by the object, never by their name or repr
+VecA = type("Vector", (object,), {})
+VecB = type("Vector", (object,), {})
+
+
+def build_typedH():
+    ps = PS("typedH", True, [float], float, [float, VecA, VecB])
+    p = ps.pset
+    p.addPrimitive(f_add, [VecA, VecB], float, name="mix")
+    p.addPrimitive(f_add, [float, float], float, name="addF")
+    p.addPrimitive(f_id, [VecA], VecA, name="rotA")
+    p.addPrimitive(f_add, [VecA, VecA], VecA, name="sumA")
+    p.addPrimitive(f_id, [VecB], VecB, name="rotB")
+    p.addPrimitive(f_add, [VecB, VecB], VecB, name="sumB")
+    p.addPrimitive(f_id, [float], VecA, name="liftA")
+    p.addPrimitive(f_id, [float], VecB, name="liftB")
+    p.addTerminal(1, VecA, name="a0")
+    p.addTerminal(2, VecB, name="b0")
+    p.addTerminal(1.0, float)
+    p.addEphemeralConstant(uniq("EH"), _eph, VecB)
+    return ps
+
+
 def build_typedN():
     # the type bool has primitives (ltF, notB) but NO terminal: generate raises its documented IndexError whenever a
     # bool slot reaches the leaf depth, mutInsert / mutUniform raise when they need a bool terminal
@@ -395,7 +419,7 @@ def build_perm(k):
 BUILDERS = {"loose1": build_loose1, "loose0": build_loose0, "loose2": build_loose2, "unary": build_loose_unary,
             "typed1": build_typed1, "typed1f": lambda: build_typed1(float), "typed1b": lambda: build_typed1(bool),
             "typed2": build_typed2, "typed3": build_typed3, "typedobj": build_typedobj, "typedT": build_typedT,
-            "typedS": build_typedS, "typedN": build_typedN}
+            "typedS": build_typedS, "typedN": build_typedN, "typedH": build_typedH}
 for _k in range(6):
     BUILDERS["perm%d" % _k] = (lambda k: (lambda: build_perm(k)))(_k)
 PSNAMES = sorted(BUILDERS)
@@ -466,7 +490,8 @@ def parse_all(nodes):
 def check_types(t, slot):
     n, kids, b, _ = t
     if not issubclass(n.ret, slot):
-        raise Bad("node %d (%s) returns %s, not accepted by slot %s" % (b, n.name, n.ret.__name__, slot.__name__))
+        raise Bad("node %d (%s) returns %s, not accepted by slot %s%s" % (
+            b, n.name, n.ret.__name__, slot.__name__, " (a different type of the same name)" if n.ret.__name__ == slot.__name__ else ""))
     if n.arity:
         if len(n.args) != len(kids):
             raise Bad("arity mismatch")
@@ -878,11 +903,18 @@ def generate(tier, rng, mult):
                             yield d
     # crossover in a strongly typed set whose roots return `object` (the untyped shortcut removed by the fix of
     # cxOnePoint would swap nodes of unrelated types there)
-    for _ in range((2000 if thorough else 200) * mult):
+    for i in range((2000 if thorough else 200) * mult):
         ps = get_ps("typedobj")
         d = op_desc(rng, ps, "cx")
         for g in d["t"]:
             g["mode"], g["mn"], g["mx"], g["ty"] = "full", rng.randint(1, 2), 3, 0
+        yield d
+    # ... and in a set with two distinct types of the same name (candidates must be keyed by the type OBJECT)
+    for i in range((2000 if thorough else 200) * mult):
+        ps = get_ps("typedH")
+        d = op_desc(rng, ps, "cx" if i % 2 == 0 else "cxlb")
+        for g in d["t"]:
+            g["mode"], g["mn"], g["mx"], g["ty"] = rng.choice(["full", "grow"]), 2, rng.randint(2, 4), ps.tid(float)
         yield d
     # staticLimit on the height with a tight limit: both parents exactly at the limit
     for _ in range((20000 if thorough else 2000) * mult):
